@@ -9,10 +9,10 @@ import (
 
 type pbField struct {
 	Num   uint64
-	WT    int      // wire type 0,1,2,5 (groups are not produced by the seeds)
-	Var   uint64   // WT 0
-	Fix   []byte   // WT 1 (8 bytes) / WT 5 (4 bytes)
-	Bytes []byte   // WT 2 raw content
+	WT    int        // wire type 0,1,2,5 (groups are not produced by the seeds)
+	Var   uint64     // WT 0
+	Fix   []byte     // WT 1 (8 bytes) / WT 5 (4 bytes)
+	Bytes []byte     // WT 2 raw content
 	Sub   []*pbField // WT 2 parsed as a message when it parses cleanly (nil otherwise)
 	// overrides used by corruptors
 	RawLen *uint64 // when set, this length is written instead of len(content)
